@@ -29,13 +29,18 @@ EXPLANATION = (
     'visited is never reset; every other loop is a for over a finite sequence/range or a while whose every iteration '
     'reads at least one byte or strictly advances its counter. DNSDatagramProtocol.datagramReceived catches EOFError '
     'and ValueError around fromStr and drops the packet. Not decided: exceptions from constructors called with '
-    'default arguments, MemoryError, the TCP framing loop.'
-    ' STRUCTURAL throughout (exception-escape and progress over the call graph, for every input); the pointer range is finite-exhaustive over both bytes; the only bounded'
-    ' rule interprets datagramReceived on four concrete datagrams as a second layer to the static handler rules.'
+    'default arguments, MemoryError.'
+    ' Every unpack (struct.unpack, a precompiled Struct object, a read-and-unpack helper) consumes bytes from a length-checked read: readPrecisely or a dominating '
+    'explicit test of len(); file.read(n) alone may return fewer bytes and turns a truncated message into struct.error. The TCP framing loop of '
+    'DNSProtocol.dataReceived: every path from the loop head back to it, exception handlers included, strips the front of the buffer (rule framing/frame-consumed).'
+    ' STRUCTURAL throughout (exception-escape and progress over the call graph, for every input); the pointer range is finite-exhaustive over both bytes; the bounded'
+    ' rules interpret datagramReceived on concrete datagrams and dataReceived under a step budget on well-formed, split, malformed and empty frames, as a second '
+    'layer to the static handler / progress rules.'
 )
 RULE_KINDS = {
     "termination/pointer-domain": "finite-exhaustive",        # the pointer expression evaluated over both input bytes, 256 x 256
     "protocol/drops-malformed-evaluated": "bounded",            # datagramReceived interpreted on four concrete datagrams
+    "framing/evaluated": "bounded",                             # DNSProtocol.dataReceived interpreted under a step budget on six concrete streams
     "*": "structural",                                          # exception-escape and progress rules over the decode call graph
 }
 ASSUMPTIONS = [
@@ -1450,6 +1455,124 @@ def check_protocol_handlers(ctx, mod, consts):
                   f"{label}: datagramReceived {'raises ' + str(v) if k != 'value' else 'returns'} and dispatches {n} message(s); expected no exception and {want} dispatch(es)")
 
 
+def _front_strip(st, defs=None) -> Optional[Tuple[str, ast.expr]]:
+    """`B = B[E:]` (also through a local holding the slice) / `del B[:E]` for a buffer B (a local or a self attribute): -> (source of B, E)."""
+    if isinstance(st, ast.Assign) and len(st.targets) == 1 and isinstance(st.targets[0], (ast.Name, ast.Attribute)):
+        val = st.value
+        if isinstance(val, ast.Name) and defs and val.id in defs:
+            val = defs[val.id]
+        if isinstance(val, ast.Subscript) and isinstance(val.slice, ast.Slice):
+            sl = val.slice
+            if src(st.targets[0]) == src(val.value) and sl.lower is not None and sl.upper is None and sl.step is None:
+                return src(st.targets[0]), sl.lower
+    if isinstance(st, ast.Delete) and len(st.targets) == 1 and isinstance(st.targets[0], ast.Subscript) and isinstance(st.targets[0].slice, ast.Slice):
+        sl = st.targets[0].slice
+        if sl.lower is None and sl.upper is not None and sl.step is None:
+            return src(st.targets[0].value), sl.upper
+    return None
+
+
+def check_stream_framing(ctx, mod, consts):
+    """The TCP protocol cuts the byte stream into length-prefixed frames in a loop.  Structural: every path from the loop head back to the loop head -
+    exception handlers included - removes something from the front of the buffer (the frame just handled, or its prefix), so no frame is looked at
+    twice.  Bounded: dataReceived interpreted under a step budget on well-formed, split, malformed and empty frames."""
+    cls = ctx.cls(DNS, "DNSProtocol")
+    entry = ctx.func(DNS, "DNSProtocol.dataReceived")
+    ms = methods(cls)
+    todo, seen = [entry], []
+    while todo:
+        f = todo.pop()
+        if any(f is x for x in seen):
+            continue
+        seen.append(f)
+        for c in ast.walk(f):
+            if isinstance(c, ast.Call) and is_self_attr(c.func) and c.func.attr.startswith("_") and c.func.attr in ms:
+                todo.append(ms[c.func.attr])
+    n_loops = 0
+    for f in seen:
+        q = f"{Q}.DNSProtocol.{f.name}"
+        g = ctx.cfg(f)
+        for lp in [x for x in body_walk(f) if isinstance(x, ast.While)]:
+            body_ids = {id(x) for st in lp.body for x in ast.walk(st)}
+            defs = single_defs(f)
+            strips = [(st, _front_strip(st, defs)) for st in ast.walk(lp) if isinstance(st, ast.stmt) and id(st) in body_ids and _front_strip(st, defs) is not None]
+            bufs = {b for _, (b, _) in strips}
+            in_test = {src(x) for x in ast.walk(lp.test) if isinstance(x, (ast.Name, ast.Attribute))}
+            cons = ctx.construct(q, lp)
+            if not strips or (not (bufs & in_test) and not (isinstance(lp.test, ast.Constant) and lp.test.value)):
+                ctx.note(f"framing/frame-consumed: {cons}: not recognised as a loop that consumes a buffer from the front; left to the evaluated scenarios")
+                continue
+            n_loops += 1
+            progress = set()
+            for st, (b, e) in strips:
+                v = None
+                try:
+                    v = const_eval(e, consts)
+                except NotConst:
+                    pass
+                if v is None or (isinstance(v, int) and v >= 1):
+                    progress.update(g.ids_of(st))      # a computed count is the frame length: the frame is removed whatever it held
+            heads = g.ids(lambda n: n.kind == "join" and n.ast is lp)
+            if not heads:
+                _fail(f"{q}: loop head not found in the CFG")
+            back = g.path([d for h in heads for d, l in g.succ[h] if d not in progress], heads, avoid=progress)
+            ctx.check(back is None, "framing/frame-consumed", cons,
+                      "an iteration of the framing loop can return to the loop head without removing the frame it looked at from the buffer (path below): the same bytes are "
+                      "decoded again on every iteration - one malformed frame keeps the process spinning", witness=g.describe(back))
+    if not n_loops:
+        ctx.note("framing/frame-consumed: no framing loop recognised in DNSProtocol.dataReceived")
+
+    # ---- evaluated under a step budget
+    from sa.props._lib_g import BudgetExhausted, Inst, MiniEval, Raised, Stub, Unsupported, _ClassRef, class_const
+    classes = module_classes(mod)
+    reg = {}
+    for nme, c in classes.items():
+        if nme.startswith("Record_"):
+            t = class_const(mod, c, "TYPE", consts)
+            if isinstance(t, int):
+                reg[t] = _ClassRef(c)
+    good = b"\x12\x34\x01\x00\x00\x01\x00\x00\x00\x00\x00\x00\x07example\x03org\x00\x00\x01\x00\x01"
+    frame = lambda b: struct.pack("!H", len(b)) + b
+    q = f"{Q}.DNSProtocol.dataReceived"
+
+    def run(chunks, budget):
+        ev = MiniEval(mod, consts=consts, class_overrides={("Message", "_recordTypes"): dict(reg)}, helpers={"nativeString": lambda b: b.decode("ascii") if isinstance(b, bytes) else b})
+        ev.fuel = budget
+        ctl = Stub("controller")
+        proto = Inst(cls, liveMessages={}, controller=ctl, transport=Stub("transport"))
+        kind, val = "value", None
+        try:
+            for ch in chunks:
+                ev.method(proto, "dataReceived", [ch])
+        except BudgetExhausted:
+            kind = "budget"
+        except Raised as ex:
+            kind, val = "raised", ex.name
+        except Unsupported as ex:
+            _fail(f"DNSProtocol.dataReceived uses a construct outside the interpreted subset: {ex}")
+        except RecursionError:
+            _fail("DNSProtocol.dataReceived: recursion limit of the analyser")
+        return kind, val, len(ctl.called("messageReceived")), budget - ev.fuel
+
+    k, v, n, cost = run([frame(good)], MiniEval.FUEL)
+    ctx.check(k == "value" and n == 1, "framing/evaluated", q + " | one well-formed frame", f"dataReceived {'returns' if k == 'value' else k + ' ' + str(v)} and dispatches {n} message(s); expected 1")
+    budget = max(20000, 40 * cost)
+    two = frame(good) + frame(good)
+    for label, chunks, want in (("two frames in one chunk", [two], 2), ("two frames cut after the length prefix and inside each message", [two[:2], two[2:20], two[20:len(frame(good)) + 2], two[len(frame(good)) + 2:]], 2)):
+        k, v, n, _ = run(chunks, budget)
+        ctx.check(k == "value" and n == want, "framing/evaluated", q + f" | {label}", f"{label}: dataReceived {'returns' if k == 'value' else ('does not finish within the step budget' if k == 'budget' else 'raises ' + str(v))} "
+                  f"and dispatches {n} message(s); expected {want}")
+    for label, data in (("a frame that is not a DNS message, then a well-formed frame", frame(b"\x00\x01\x02\x03\x04") + frame(good)),
+                        ("a frame whose name points to itself, then a well-formed frame", frame(good[:12] + b"\xc0\x0c\x00\x01\x00\x01") + frame(good)),
+                        ("an empty frame, then a well-formed frame", frame(b"") + frame(good))):
+        k, v, n, _ = run([data], budget)
+        # the connection may be given up (an exception reaches the transport) or the bad frame skipped - but the call must end, and a skipped frame must not take the next one with it
+        ok = k == "raised" or (k == "value" and n == 1)
+        ctx.check(ok, "framing/evaluated", q + f" | {label}",
+                  f"{label}: dataReceived " + ("does not finish within {0} interpreter steps ({1}x the cost of a well-formed frame): the same frame is decoded over and over".format(budget, budget // max(cost, 1))
+                                               if k == "budget" else f"returns after dispatching {n} message(s); expected the following frame to be dispatched exactly once"))
+
+
 def check(ctx):
     mod = ctx.mod(DNS)
     consts = module_consts(mod)
@@ -1465,9 +1588,25 @@ def check(ctx):
     check_termination(ctx, fam)     # one section per family member inside
     with ctx.section("protocol handlers"):
         check_protocol_handlers(ctx, mod, consts)
+    with ctx.section("TCP framing"):
+        check_stream_framing(ctx, mod, consts)
 
 
 MUTANTS = [
+    # the TCP framing loop: every way back to the loop head removes the frame from the buffer
+    Mutant("tcp-unsolicited-message-dispatched-then-continue", DNS, "                except KeyError:\n                    self.controller.messageReceived(m, self)\n                else:\n                    del self.liveMessages[m.id]\n",
+           "                except KeyError:\n                    self.controller.messageReceived(m, self)\n                    continue\n                else:\n                    del self.liveMessages[m.id]\n",
+           expect_rule="framing/frame-consumed"),
+    Mutant("tcp-length-forgotten-before-the-strip", DNS, "                self.buffer = self.buffer[self.length :]\n                self.length = None\n", "                self.length = None\n                self.buffer = self.buffer[self.length :]\n",
+           expect_rule="framing/evaluated"),
+    Mutant("tcp-strip-keeps-the-frame", DNS, "                self.buffer = self.buffer[self.length :]\n                self.length = None\n", "                self.buffer = self.buffer[0:]\n                self.length = None\n",
+           expect_rule="framing/frame-consumed"),
+    # every unpack consumes bytes from a length-checked read (readPrecisely or an explicit length test) - also through precompiled Struct objects
+    Mutant("query-unpacks-a-plain-read", DNS, "        buff = readPrecisely(strio, 4)\n        self.type, self.cls = struct.unpack(\"!HH\", buff)\n", "        buff = strio.read(4)\n        self.type, self.cls = struct.unpack(\"!HH\", buff)\n", expect_rule="escape/unpack-size"),
+    Mutant("query-length-test-one-byte-short", DNS, "        buff = readPrecisely(strio, 4)\n        self.type, self.cls = struct.unpack(\"!HH\", buff)\n", "        buff = strio.read(4)\n        if len(buff) < 3:\n            raise EOFError\n        self.type, self.cls = struct.unpack(\"!HH\", buff)\n",
+           expect_rule="escape/unpack-size"),
+    Mutant("soa-module-level-struct-object-plain-read", DNS, '        r = struct.unpack("!LlllL", readPrecisely(strio, 20))\n', '        r = _SOA_TIMERS.unpack(strio.read(_SOA_TIMERS.size))\n',
+           more=[(DNS, "def readPrecisely(file, l):\n", "_SOA_TIMERS = struct.Struct(\"!LlllL\")\n\n\ndef readPrecisely(file, l):\n")], expect_rule="escape/unpack-size"),
     Mutant("unknown-record-raise-after-inverted-guard", DNS, "        if length is None:\n            raise Exception(\"must know length for unknown record types\")\n        self.data = readPrecisely(strio, length)\n",
            "        if length is None:\n            self.data = b\"\"\n            return\n        raise Exception(\"must know length for unknown record types\")\n", expect_rule="escape/explicit-raise"),
     Mutant("query-reads-three-bytes", DNS, "        buff = readPrecisely(strio, 4)\n        self.type, self.cls = struct.unpack(\"!HH\", buff)\n",
@@ -1523,6 +1662,16 @@ MUTANTS = [
 ]
 
 SILENT = [
+    Silent("tcp-malformed-frame-skipped-after-removing-it", DNS, "                m.fromStr(myChunk)\n\n                try:\n                    d, canceller = self.liveMessages[m.id]\n",
+           "                try:\n                    m.fromStr(myChunk)\n                except (EOFError, ValueError):\n                    self.buffer = self.buffer[self.length :]\n                    self.length = None\n"
+           "                    continue\n\n                try:\n                    d, canceller = self.liveMessages[m.id]\n"),
+    Silent("tcp-strip-through-a-local", DNS, "                self.buffer = self.buffer[self.length :]\n                self.length = None\n",
+           "                remaining = self.buffer[self.length :]\n                self.length = None\n                self.buffer = remaining\n"),
+    Silent("query-plain-read-with-explicit-length-test", DNS, "        buff = readPrecisely(strio, 4)\n        self.type, self.cls = struct.unpack(\"!HH\", buff)\n",
+           "        buff = strio.read(4)\n        if len(buff) != 4:\n            raise EOFError\n        self.type, self.cls = struct.unpack(\"!HH\", buff)\n"),
+    Silent("rrheader-precompiled-struct-object-length-checked", DNS, "        l = struct.calcsize(self.fmt)\n        buff = readPrecisely(strio, l)\n        r = struct.unpack(self.fmt, buff)\n",
+           "        r = self._struct.unpack(readPrecisely(strio, self._struct.size))\n",
+           more=[(DNS, "    fmt = \"!HHIH\"\n\n    rdlength = None\n", "    fmt = \"!HHIH\"\n    _struct = struct.Struct(fmt)\n\n    rdlength = None\n")]),
     # shapes of the behaviour-preserving refactors C32r3 / C32r4 (cross sweep): guard clause before the length-less raise, objects decoded in a loop
     # over a literal tuple, attributes named by a loop over literal strings, a classmethod handing the option loop to a static helper
     Silent("unknown-record-raise-after-guard-clause", DNS, "        if length is None:\n            raise Exception(\"must know length for unknown record types\")\n        self.data = readPrecisely(strio, length)\n",
